@@ -225,6 +225,10 @@ fn handle(job: &Value, scratch: &PathBuf) -> Value {
         res["uses_in"] = uses_projection(&src, &ed);
         res["uses_out"] = uses_projection(&out_text, &ed);
     }
+    if wants(job, "ledger") {
+        let ed = job["opts"]["edition"].as_str().unwrap_or("2015").to_owned();
+        res["ledger"] = ledger(&src, &out_text, &ed);
+    }
     if wants(job, "lex") {
         res["lex_in"] = lex_summary(&src);
         res["lex_out"] = lex_summary(&out_text);
@@ -614,4 +618,364 @@ fn relayout(text: &str, seed: u64) -> String {
         prev_line_comment = matches!(tok.kind, T::LineComment { .. });
     }
     out
+}
+
+
+// ---------------------------------------------------------------------------
+// C01: token ledger.  Both texts are parsed by rustc_parse and printed by
+// rustc_ast_pretty (layout and everything the AST does not record are erased;
+// macro token trees are kept token by token); imports, extern crates and
+// out-of-line mod declarations are left out (C10 / C11 judge them); the two
+// token sequences are aligned and every difference is reported as a hunk.
+// ---------------------------------------------------------------------------
+fn with_parsed<R>(
+    text: &str,
+    edition: &str,
+    f: impl FnOnce(&rustc_ast::ast::Crate) -> R,
+) -> Option<R> {
+    use rustc_span::edition::Edition;
+    let ed = match edition {
+        "2018" => Edition::Edition2018,
+        "2021" => Edition::Edition2021,
+        "2024" => Edition::Edition2024,
+        _ => Edition::Edition2015,
+    };
+    let text = text.to_owned();
+    catch_unwind(AssertUnwindSafe(|| {
+        rustc_span::create_session_globals_then(ed, None, || {
+            let psess = rustc_session::parse::ParseSess::with_dcx(
+                rustc_errors::DiagCtxt::new(Box::new(rustc_errors::emitter::SilentEmitter {
+                    fatal_emitter: Box::new(rustc_errors::emitter::HumanEmitter::new(
+                        Box::new(std::io::sink()),
+                        rustc_errors::fallback_fluent_bundle(
+                            rustc_driver::DEFAULT_LOCALE_RESOURCES.to_vec(),
+                            false,
+                        ),
+                    )),
+                    fatal_note: None,
+                    emit_fatal_diagnostic: false,
+                })),
+                std::sync::Arc::new(rustc_span::source_map::SourceMap::new(
+                    rustc_span::source_map::FilePathMapping::empty(),
+                )),
+            );
+            let mut parser = match rustc_parse::new_parser_from_source_str(
+                &psess,
+                rustc_span::FileName::Custom("proj".to_owned()),
+                text,
+            ) {
+                Ok(p) => p,
+                Err(errs) => {
+                    for e in errs {
+                        e.cancel();
+                    }
+                    return None;
+                }
+            };
+            let parsed = parser.parse_crate_mod();
+            let res = match parsed {
+                Ok(k) => {
+                    if psess.dcx().has_errors().is_some() {
+                        None
+                    } else {
+                        Some(f(&k))
+                    }
+                }
+                Err(e) => {
+                    e.cancel();
+                    None
+                }
+            };
+            drop(parser);
+            res
+        })
+    }))
+    .ok()
+    .flatten()
+}
+
+fn print_items(items: &[rustc_ast::ptr::P<rustc_ast::ast::Item>], out: &mut String) {
+    use rustc_ast::ast::{ItemKind, ModKind};
+    for item in items {
+        match &item.kind {
+            ItemKind::Use(..) | ItemKind::ExternCrate(..) => {}
+            ItemKind::Mod(_, _, ModKind::Unloaded) => {}
+            ItemKind::Mod(_, ident, ModKind::Loaded(inner, ..)) => {
+                for a in &item.attrs {
+                    out.push_str(&rustc_ast_pretty::pprust::attribute_to_string(a));
+                    out.push('\n');
+                }
+                out.push_str(&rustc_ast_pretty::pprust::vis_to_string(&item.vis));
+                out.push_str(&format!("mod {} {{\n", ident));
+                print_items(inner, out);
+                out.push_str("}\n");
+            }
+            _ => {
+                out.push_str(&rustc_ast_pretty::pprust::item_to_string(item));
+                out.push('\n');
+            }
+        }
+    }
+}
+
+/// Token vectors of the pretty-printed crate, one per top-level unit (crate attributes,
+/// then each item that is kept), so that the alignment never has to span the whole file.
+fn pretty_tokens(text: &str, edition: &str) -> Option<Vec<Vec<String>>> {
+    let units: Vec<String> = with_parsed(text, edition, |k| {
+        let mut units = vec![];
+        let mut s = String::new();
+        for a in &k.attrs {
+            s.push_str(&rustc_ast_pretty::pprust::attribute_to_string(a));
+            s.push('\n');
+        }
+        units.push(s);
+        for item in &k.items {
+            let mut s = String::new();
+            print_items(std::slice::from_ref(item), &mut s);
+            if !s.is_empty() {
+                units.push(s);
+            }
+        }
+        units
+    })?;
+    Some(units.iter().map(|u| tokens_of(u)).collect())
+}
+
+fn tokens_of(printed: &str) -> Vec<String> {
+    use rustc_lexer::TokenKind as T;
+    let mut toks: Vec<String> = vec![];
+    let mut pos = 0usize;
+    let mut last_was_doc = false;
+    for tok in rustc_lexer::tokenize(printed) {
+        let s = &printed[pos..pos + tok.len as usize];
+        pos += tok.len as usize;
+        match tok.kind {
+            T::Whitespace => continue,
+            T::LineComment { doc_style: None } | T::BlockComment { doc_style: None, .. } => continue,
+            T::LineComment { .. } | T::BlockComment { .. } => {
+                // doc comments: re-indentation (and, under the comment-rewriting options,
+                // re-wrapping) inside them is a permitted normalisation: consecutive doc
+                // comments become ONE token holding their words
+                let is_block = matches!(tok.kind, T::BlockComment { .. });
+                let body: String = if is_block {
+                    // `/** .. */` or `/*! .. */`: drop the markers and the `*` gutter
+                    let inner = &s[3..s.len().saturating_sub(2).max(3)];
+                    inner
+                        .lines()
+                        .map(|l| l.trim_start().trim_start_matches('*'))
+                        .collect::<Vec<_>>()
+                        .join(" ")
+                } else {
+                    s[3..].to_owned()
+                };
+                let words: Vec<&str> = body.split_whitespace().collect();
+                // (white space inside doc text is not compared: re-indentation is permitted
+                // and the comment-rewriting options re-wrap it)
+                if last_was_doc {
+                    let last = toks.last_mut().unwrap();
+                    for w in words {
+                        last.push_str(w);
+                    }
+                } else {
+                    toks.push(format!("///{}", words.join("")));
+                }
+                last_was_doc = true;
+                continue;
+            }
+            T::Literal { kind, .. } => {
+                use rustc_lexer::LiteralKind as L;
+                match kind {
+                    L::Str { .. } | L::ByteStr { .. } | L::CStr { .. } => {
+                        // a line continuation (backslash-newline plus indentation) has no value
+                        let mut v = String::new();
+                        let mut it = s.chars().peekable();
+                        while let Some(c) = it.next() {
+                            if c == '\\' {
+                                match it.peek() {
+                                    Some('\n') => {
+                                        while matches!(it.peek(), Some(c) if c.is_whitespace()) {
+                                            it.next();
+                                        }
+                                    }
+                                    Some(_) => {
+                                        v.push(c);
+                                        v.push(it.next().unwrap());
+                                    }
+                                    None => v.push(c),
+                                }
+                            } else {
+                                v.push(c);
+                            }
+                        }
+                        toks.push(v);
+                    }
+                    _ => toks.push(s.to_owned()),
+                }
+            }
+            _ => toks.push(s.to_owned()),
+        }
+        last_was_doc = false;
+    }
+    // imports in statement position (inside blocks) are C10's business as well
+    let mut out: Vec<String> = Vec::with_capacity(toks.len());
+    let mut i = 0usize;
+    while i < toks.len() {
+        let at_stmt_start = out.last().map_or(true, |p| matches!(p.as_str(), "{" | "}" | ";" | "]"));
+        // (`use |x| ..` / `use || ..` is a closure of the ergonomic-clones syntax, not an import)
+        let closure = toks.get(i + 1).map_or(true, |n| n == "|");
+        if toks[i] == "use" && at_stmt_start && !closure {
+            while i < toks.len() && toks[i] != ";" {
+                i += 1;
+            }
+            i += 1;
+            continue;
+        }
+        out.push(std::mem::take(&mut toks[i]));
+        i += 1;
+    }
+    out
+}
+
+fn ledger(src: &str, out: &str, edition: &str) -> Value {
+    let (Some(ua), Some(ub)) = (pretty_tokens(src, edition), pretty_tokens(out, edition)) else {
+        return json!({"parsed_in": pretty_tokens(src, edition).is_some(),
+                      "parsed_out": pretty_tokens(out, edition).is_some(), "edits": []});
+    };
+    if ua.len() == ub.len() {
+        let mut edits: Vec<Value> = vec![];
+        let mut n_tokens = 0usize;
+        let mut too_big = false;
+        for (k, (a, b)) in ua.iter().zip(ub.iter()).enumerate() {
+            n_tokens += a.len();
+            if a == b {
+                continue;
+            }
+            let v = ledger_tokens(a, b);
+            too_big |= v.get("too_big").is_some();
+            for e in v["edits"].as_array().cloned().unwrap_or_default() {
+                let mut e = e;
+                // keep gap numbers of different units apart
+                e["pos"] = json!(e["pos"].as_u64().unwrap_or(0) + (k as u64) * 1_000_000);
+                edits.push(e);
+            }
+        }
+        let mut r = json!({"parsed_in": true, "parsed_out": true, "edits": edits, "n_tokens": n_tokens});
+        if too_big {
+            r["too_big"] = json!(true);
+        }
+        return r;
+    }
+    let a: Vec<String> = ua.into_iter().flatten().collect();
+    let b: Vec<String> = ub.into_iter().flatten().collect();
+    ledger_tokens(&a, &b)
+}
+
+fn ledger_tokens(a: &[String], b: &[String]) -> Value {
+    let (n, m) = (a.len(), b.len());
+    let mut pre = 0;
+    while pre < n && pre < m && a[pre] == b[pre] {
+        pre += 1;
+    }
+    let mut suf = 0;
+    while suf < n - pre && suf < m - pre && a[n - 1 - suf] == b[m - 1 - suf] {
+        suf += 1;
+    }
+    let (ma, mb) = (&a[pre..n - suf], &b[pre..m - suf]);
+    if ma.is_empty() && mb.is_empty() {
+        return json!({"parsed_in": true, "parsed_out": true, "edits": [], "n_tokens": n});
+    }
+    if ma.len() * mb.len() > 40_000_000 {
+        return json!({"parsed_in": true, "parsed_out": true, "n_tokens": n, "too_big": true,
+                      "edits": [{"op": "del", "tok": "<too many differences to align>", "cls": "punct", "prev2": "", "after": "", "prev": "",
+                                 "next": "", "head": "", "pos": 0}]});
+    }
+    let (la, lb) = (ma.len(), mb.len());
+    let mut dp = vec![0u32; (la + 1) * (lb + 1)];
+    for i in (0..la).rev() {
+        for j in (0..lb).rev() {
+            dp[i * (lb + 1) + j] = if ma[i] == mb[j] {
+                dp[(i + 1) * (lb + 1) + j + 1] + 1
+            } else {
+                dp[(i + 1) * (lb + 1) + j].max(dp[i * (lb + 1) + j + 1])
+            };
+        }
+    }
+    // single-token edits, in order; `prev` is the previous token of the OUTPUT stream as
+    // rebuilt so far, `next` the next token of the input not yet consumed, `head` the first
+    // token of the enclosing statement (in the output stream), `pos` the index of the gap
+    // between common tokens (edits with the same pos are adjacent)
+    let mut edits: Vec<Value> = vec![];
+    let mut built: Vec<&str> = a[..pre].iter().map(|s| s.as_str()).collect();
+    let head_of = |built: &Vec<&str>| -> String {
+        let mut k = built.len();
+        let mut depth = 0i32;
+        let mut head = "";
+        while k > 0 {
+            let t = built[k - 1];
+            if depth == 0 && (t == ";" || t == "{" || t == "}" || t == ",") {
+                break;
+            }
+            match t {
+                ")" | "]" => depth += 1,
+                "(" | "[" => {
+                    if depth == 0 {
+                        break;
+                    }
+                    depth -= 1
+                }
+                _ => {}
+            }
+            head = t;
+            k -= 1;
+        }
+        head.to_owned()
+    };
+    let cls_of = |t: &str| -> &'static str {
+        let c = t.chars().next().unwrap_or(' ');
+        if t.starts_with("//") || t.starts_with("/*") {
+            "doc"
+        } else if c == '"' || t.starts_with("r\"") || t.starts_with("r#\"") || t.starts_with("b\"")
+            || t.starts_with("c\"") || t.starts_with("br")
+        {
+            "str"
+        } else if c.is_ascii_digit() {
+            if t.ends_with('.') { "floatdot" } else { "num" }
+        } else if c == '\'' {
+            "charlt"
+        } else if c.is_alphabetic() || c == '_' {
+            "ident"
+        } else {
+            "punct"
+        }
+    };
+    let (mut i, mut j) = (0usize, 0usize);
+    let mut pos = 0usize;
+    while i < la || j < lb {
+        if i < la && j < lb && ma[i] == mb[j] {
+            built.push(ma[i].as_str());
+            i += 1;
+            j += 1;
+            pos += 1;
+            continue;
+        }
+        let take_ins = j < lb && (i == la || dp[i * (lb + 1) + j + 1] >= dp[(i + 1) * (lb + 1) + j]);
+        let prev = built.last().copied().unwrap_or("").to_owned();
+        let prev2 = if built.len() > 1 { built[built.len() - 2].to_owned() } else { String::new() };
+        let next = if i < la { ma[i].clone() } else if suf > 0 { a[n - suf].clone() } else { String::new() };
+        let next_out = if j < lb { mb[j].clone() } else if suf > 0 { a[n - suf].clone() } else { String::new() };
+        let head = head_of(&built);
+        if take_ins {
+            let after = if j + 1 < lb { mb[j + 1].clone() } else if suf > 0 { a[n - suf].clone() } else { String::new() };
+            edits.push(json!({"op": "ins", "tok": mb[j], "cls": cls_of(&mb[j]), "prev": prev, "prev2": prev2, "next": next,
+                              "after": after, "head": head, "pos": pos}));
+            built.push(mb[j].as_str());
+            j += 1;
+        } else {
+            let after = if i + 1 < la { ma[i + 1].clone() } else if suf > 0 { a[n - suf].clone() } else { String::new() };
+            edits.push(json!({"op": "del", "tok": ma[i], "cls": cls_of(&ma[i]), "prev": prev, "prev2": prev2, "next": after,
+                              "after": next_out, "head": head, "pos": pos}));
+            i += 1;
+        }
+    }
+    json!({"parsed_in": true, "parsed_out": true, "edits": edits, "n_tokens": n})
 }
